@@ -34,6 +34,26 @@ func vInstallSequencer() {
 					return nil, err
 				}
 			}
+			// fencing, at the moment the operation is sequenced (after which it
+			// takes effect): an in-sync-set change names the partition's current
+			// leader and leader epoch - one sent by a leader deposed meanwhile
+			// must have been refused by now
+			var nl string
+			var ne uint64
+			var np *partition
+			switch op.Op {
+			case proto.Op_SHRINK_ISR:
+				nl, ne = op.ShrinkISROp.Leader, op.ShrinkISROp.LeaderEpoch
+				np = vController.metadata.GetPartition(op.ShrinkISROp.Stream, op.ShrinkISROp.Partition)
+			case proto.Op_EXPAND_ISR:
+				nl, ne = op.ExpandISROp.Leader, op.ExpandISROp.LeaderEpoch
+				np = vController.metadata.GetPartition(op.ExpandISROp.Stream, op.ExpandISROp.Partition)
+			}
+			if np != nil {
+				cl, ce := np.GetLeader()
+				vAssert(nl == cl, "an in-sync-set change that takes effect names the current leader")
+				vAssert(ne == ce, "an in-sync-set change that takes effect names the current leader epoch")
+			}
 			vRaftIndex++
 			// round-trip through the wire format like a real Raft entry
 			data, err := op.Marshal()
